@@ -38,7 +38,7 @@ func keep(d *m.Design) bool { return true }
 func TestOpenAPI(t *testing.T) {
 	n := rt.EnvInt("VERIF_CHECKS", 32)
 	seed := rt.EnvInt("VERIF_SEED", 1)
-	sess, built := rt.Prepare(t, "c07", rt.Options{Profile: gen.Routes(), N: n, Seed: seed, Keep: keep, AvoidIfOpen: []string{"C07-exclusive-bounds-as-numbers", "C07-openapi2-response-header-go-type-names", "C07-uint32-documented-as-int32"},
+	sess, built := rt.Prepare(t, "c07", rt.Options{Profile: gen.Routes(), N: n, Seed: seed, Keep: keep, AvoidIfOpen: []string{"C07-exclusive-bounds-as-numbers", "C07-openapi2-response-header-go-type-names", "C07-uint32-documented-as-int32", "C07-yaml-drops-leading-newline-in-description"},
 		Extra: []*m.Design{gen.ParamMatrix()}})
 	defer sess.Close()
 	defer rt.CloseAll(built)
@@ -173,6 +173,13 @@ func firstDiff(a, b any, path string) string {
 		}
 		if bs, ok := b.(string); ok && as == "\n"+bs && kf.Open("C07-yaml-drops-leading-newline-in-description") {
 			stats.Class("known-finding-hit:C07-yaml-drops-leading-newline-in-description")
+			return ""
+		}
+	}
+	if a == nil && strings.Contains(path, "/example") && kf.Open("C07-nil-example-yaml-json-differ") {
+		// open finding: a generated example that bottoms out as a nil map is null in JSON and {} in YAML
+		if bm, ok := b.(map[string]any); ok && len(bm) == 0 {
+			stats.Class("known-finding-hit:C07-nil-example-yaml-json-differ")
 			return ""
 		}
 	}
